@@ -7,6 +7,8 @@ def run(req):
     a = req.get("args", {})
     if fn in ("trajgrad.trap_grad", "trajgrad.min_trap_grad"):
         return _trap(fn, a)
+    if fn == "prox.check":
+        return _prox(a)
     if fn == "linop.stack_params":
         return _stack_params(a)
     if fn == "linop.reject":
@@ -618,3 +620,125 @@ def _reject(a):
     except Exception:
         ok = False
     return dict(reproduced=ok != fits, detail="%s %s although the shapes %s" % (kind, "accepted" if ok else "rejected", "fit" if fits else "do not fit"))
+
+
+# ----------------------------------------------------------------------------- C11 proximal operators
+def _obj_min_check(P, g, alpha, y, rs, feasible=None, ntry=200, tol=1e-9):
+    """p = P(alpha, y) must not be beaten by random candidates x: 0.5|x-y|^2 + alpha g(x) >= value at p (- tol)"""
+    p = P(alpha, y.copy())
+    bad = []
+    if np.shape(p) != np.shape(y):
+        return ["output shape %s != input shape %s" % (np.shape(p), np.shape(y))], p
+    if not np.all(np.isfinite(p)):
+        return ["non-finite output"], p
+    f = lambda x: 0.5 * float(np.sum(np.abs(x - y) ** 2)) + alpha * g(x)
+    fp = f(p)
+    if not np.isfinite(fp):
+        bad.append("output is infeasible (objective infinite)")
+        return bad, p
+    scale = max(1.0, abs(fp))
+    for i in range(ntry):
+        step = 10.0 ** rs.uniform(-6, 0)
+        d = rs.standard_normal(y.shape) + (1j * rs.standard_normal(y.shape) if np.iscomplexobj(y) else 0)
+        x = p + step * d
+        if feasible is not None:
+            x = feasible(x)
+        fx = f(x)
+        if fx < fp - tol * scale:
+            bad.append("candidate beats the returned point: %.12g < %.12g" % (fx, fp))
+            break
+    return bad, p
+
+
+def _prox(a):
+    import sigpy as sp
+    P = sp.prox
+    rs = np.random.RandomState(int(a.get("seed", 0)))
+    kind, shape, cplx = a["kind"], tuple(a["shape"]), bool(a.get("complex", True))
+    alpha = float(a.get("alpha", 0.7))
+    y = rs.standard_normal(shape) + (1j * rs.standard_normal(shape) if cplx else 0)
+    y = y.astype(np.complex128 if cplx else np.float64)
+    special = a.get("special")
+    lam, eps = float(a.get("lam", 0.4)), float(a.get("eps", 0.9))
+    if special == "zeros":
+        y = np.zeros_like(y)
+    elif special == "on-threshold":
+        y = y / np.maximum(np.abs(y), 1e-30) * (lam * alpha)
+        y.flat[0] = 0
+    elif special == "feasible":
+        y = y * (0.1 * eps / max(1e-30, np.sum(np.abs(y))))
+    elif special == "boundary":
+        y = y * (eps / max(1e-30, np.linalg.norm(y)))
+    inf = float("inf")
+    bias = (rs.standard_normal(shape) + (1j * rs.standard_normal(shape) if cplx else 0)).astype(y.dtype) if a.get("bias") else None
+    if kind == "L1Reg":
+        op, g, feas = P.L1Reg(shape, lam), (lambda x: lam * float(np.sum(np.abs(x)))), None
+    elif kind == "L2Reg":
+        z = bias
+        op = P.L2Reg(shape, lam, y=z)
+        g, feas = (lambda x: lam / 2 * float(np.sum(np.abs(x - (0 if z is None else z)) ** 2))), None
+    elif kind == "L2Reg+l1":
+        z = bias
+        op = P.L2Reg(shape, lam, y=z, proxh=P.L1Reg(shape, 0.3))
+        g, feas = (lambda x: lam / 2 * float(np.sum(np.abs(x - (0 if z is None else z)) ** 2)) + 0.3 * float(np.sum(np.abs(x)))), None
+    elif kind == "L2Proj":
+        b = 0 if bias is None else bias
+        axes = a.get("axes")
+        op = P.L2Proj(shape, eps, y=b, axes=axes)
+        ax = tuple(range(len(shape))) if axes is None else tuple(axes)
+        nrm = lambda x: np.sqrt(np.sum(np.abs(x - b) ** 2, axis=ax, keepdims=True))
+        g = lambda x: 0.0 if np.all(nrm(x) <= eps * (1 + 1e-9)) else inf
+        feas = lambda x: b + (x - b) * np.minimum(1, eps / np.maximum(nrm(x), 1e-30))
+    elif kind == "LInfProj":
+        b = 0 if bias is None else bias
+        op = P.LInfProj(shape, eps, bias=bias)
+        g = lambda x: 0.0 if np.all(np.abs(x - b) <= eps * (1 + 1e-9)) else inf
+        feas = lambda x: b + (x - b) * np.minimum(1, eps / np.maximum(np.abs(x - b), 1e-30))
+    elif kind == "L1Proj":
+        op = P.L1Proj(shape, eps)
+        g = lambda x: 0.0 if np.sum(np.abs(x)) <= eps * (1 + 1e-9) else inf
+        feas = lambda x: x * min(1.0, eps / max(1e-30, float(np.sum(np.abs(x)))))
+    elif kind == "Box":
+        y = y.real.astype(np.float64)
+        op = P.BoxConstraint(shape, -0.3, 0.5)
+        g = lambda x: 0.0 if np.all((x >= -0.3 - 1e-12) & (x <= 0.5 + 1e-12)) else inf
+        feas = lambda x: np.clip(x.real, -0.3, 0.5)
+    elif kind == "Conj(L1)":
+        op = P.Conj(P.L1Reg(shape, lam))           # conjugate of lam|.|_1 is the indicator of |x|_inf <= lam
+        g = lambda x: 0.0 if np.all(np.abs(x) <= lam * (1 + 1e-9)) else inf
+        feas = lambda x: x * np.minimum(1, lam / np.maximum(np.abs(x), 1e-30))
+    elif kind == "Stack":
+        n = int(np.prod(shape))
+        y = y.ravel()
+        n1 = n // 2
+        op = P.Stack([P.L1Reg([n1], lam), P.L2Reg([n - n1], 0.6)])
+        g = lambda x: lam * float(np.sum(np.abs(x[:n1]))) + 0.3 * float(np.sum(np.abs(x[n1:]) ** 2))
+        feas = None
+    elif kind == "Unitary(FFT,L1)":
+        A = sp.linop.FFT(shape)
+        op = P.UnitaryTransform(P.L1Reg(shape, lam), A)
+        g, feas = (lambda x: lam * float(np.sum(np.abs(A(x.astype(np.complex128)))))), None
+    elif kind == "PsdProj":
+        n = shape[0]
+        Q, _ = np.linalg.qr(rs.standard_normal((n, n)) + (1j * rs.standard_normal((n, n)) if cplx else 0))
+        w = np.array(a.get("eigs", [1, 1, 1, -1][:n] + [0.5] * max(0, n - 4)), dtype=float)[:n]
+        y = (Q * w) @ Q.conj().T
+        op = P.PsdProj([n, n])
+        want = (Q * np.maximum(w, 0)) @ Q.conj().T
+        p = op(alpha, y.copy())
+        err = float(np.max(np.abs(p - want)))
+        return dict(reproduced=err > 1e-8, detail="PSD projection differs from Q max(w,0) Q^H by %g (eigenvalues %s)" % (err, w.tolist()))
+    else:
+        return dict(reproduced=False, detail="unknown kind")
+    try:
+        bad, p = _obj_min_check(op, g, alpha, y, rs, feasible=feas)
+    except Exception as e:
+        return dict(reproduced=True, detail="prox raised %s: %s" % (type(e).__name__, (str(e.__cause__) or str(e))[:150]))
+    if feas is not None and not bad:
+        # projections: idempotent, feasible input returned unchanged
+        p2 = op(alpha, np.array(p, copy=True))
+        if np.max(np.abs(p2 - p)) > 1e-9 * max(1, np.max(np.abs(p))):
+            bad.append("projection is not idempotent (changes by %g)" % np.max(np.abs(p2 - p)))
+        if g(y) == 0.0 and np.max(np.abs(p - y)) > 1e-12:
+            bad.append("feasible input was changed by %g" % np.max(np.abs(p - y)))
+    return dict(reproduced=bool(bad), detail="; ".join(bad) or "minimiser, shape, idempotence hold")
